@@ -89,13 +89,16 @@ def _same(a, b):
 
 def _ambient_check(opname, func, args, kwargs, report):
     """A stateless operation under process-wide settings the library does not own.  The call is made twice more: once under the
-    default settings with every warning recorded, once in a program that turns warnings into errors and has NumPy raise on division
+    default settings with every warning recorded that an interpreter started without -W would show, once in a program that turns warnings into errors and has NumPy raise on division
     by zero, overflow and invalid operations.  If the first neither fails nor warns (the floating-point warnings of NumPy
     included), the second must return the same thing: code whose result or success depends on those settings has to be hiding
     warnings or errors of its own."""
     try:
         with np.errstate(divide="warn", over="warn", under="ignore", invalid="warn"), warnings.catch_warnings(record=True) as wl:
+            # (the filters of an interpreter started without -W: everything is shown but the categories hidden by default)
             warnings.simplefilter("always")
+            for cat in (DeprecationWarning, PendingDeprecationWarning, ImportWarning, ResourceWarning):
+                warnings.simplefilter("ignore", cat)
             ra = func(*args, **kwargs)
     except Exception:
         AMBIENT["skipped_raised"][opname] += 1
